@@ -105,6 +105,23 @@ type GenKnobs struct {
 	// replaces the default vault gas costs (10000 / 5000 / 5000) by VaultGas+1..3.
 	Vaults   int    `json:"vaults,omitempty"`
 	VaultGas uint64 `json:"vault_gas,omitempty"`
+	// KeyManager puts a non-TEE key manager runtime with key manager nodes into the genesis (see
+	// addGenesisKeyManager in workload_keymanager.go). KMOwner is the owning entity; KMExpiry holds the
+	// genesis expiration epoch of every key manager node (its length is the number of nodes);
+	// KMNoInit is a bit mask of the nodes that register without an init response (never eligible
+	// until they re-register); KMStatus selects the genesis status (0 none, 1 fresh with a policy,
+	// 2 initialized with a master secret generation); KMLink makes the compute runtime (when there
+	// is one) name the key manager; KMGas, when not zero, sets the gas costs to KMGas+1..3;
+	// KMNodeBalance is the genesis balance of the key manager nodes' own accounts (they sign and
+	// pay for their transactions).
+	KeyManager    bool     `json:"km,omitempty"`
+	KMOwner       int      `json:"km_owner,omitempty"`
+	KMExpiry      []uint64 `json:"km_expiry,omitempty"`
+	KMNoInit      int      `json:"km_no_init,omitempty"`
+	KMStatus      int      `json:"km_status,omitempty"`
+	KMLink        bool     `json:"km_link,omitempty"`
+	KMGas         uint64   `json:"km_gas,omitempty"`
+	KMNodeBalance uint64   `json:"km_node_balance,omitempty"`
 }
 
 // World holds the deterministic key material and derived identities of a scenario.
@@ -115,6 +132,10 @@ type World struct {
 	Accounts []signature.Signer
 	// All transaction signers: entities first, then accounts, then node keys.
 	RuntimeID common.Namespace
+	// KMID and KMNodes are the key manager runtime and its genesis nodes (knob KeyManager); the
+	// nodes are not part of Entities[].Nodes, so no other workload re-registers them.
+	KMID    common.Namespace
+	KMNodes []*NodeKeys
 }
 
 // NodeKeys are the keys of one node.
@@ -461,6 +482,11 @@ func BuildWorld(k GenKnobs) (*World, error) {
 		}
 	}
 	_ = math.MaxInt64
+	if k.KeyManager {
+		if err := addGenesisKeyManager(w, doc); err != nil {
+			return nil, err
+		}
+	}
 	w.Doc = doc
 	return w, nil
 }
